@@ -6,9 +6,16 @@
     sertokens <tree>               `ok <str>` = `renderTokens (serTokensTop tree)`, or the error
     standalone <path> <tree>       `ok <tree>` = `standalone tree path` (Model/InnerStartSpec.lean: the
                                    document `to_string(element at path)` parses back to), or `none`
+    paramrt <cdata> <gt> <frag> <tree>
+                                   the closed loop under token parameters: `ok <str> <tree>` =
+                                   `serialize_xml_string` with CDATA-section elements <cdata> (`-` or ids) and
+                                   `unescaped_gt` <gt>, then `parse` (<frag> = 0) / `parse_fragment` (<frag> = 1)
+                                   of that string with the reference tokenizer; `ok <str> rejected` when the
+                                   parser refuses; the serialiser's error otherwise
 -/
 import XotModel.Model.SerTokens
 import XotModel.Model.InnerStartSpec
+import XotModel.Model.ParseString
 import XotModel.Driver.Output
 
 namespace XotModel.Driver
@@ -36,6 +43,21 @@ def handleStandalone : List String → Option String
       match standalone t q with
       | some d => some ("ok " ++ showTree d)
       | none => some "none"
+  | _ => none
+
+def handleParamRt (st : DState) : List String → Option String
+  | cd :: gt :: frag :: toks => do
+      let pr : TokenParams := ⟨← parseNatList cd, ← parseBool01 gt⟩
+      let frag ← parseBool01 frag
+      let (t, rest) ← parseTree toks
+      if !rest.isEmpty then none
+      match serializeString st.env pr t [] with
+      | .ok s =>
+        (match parseString (if frag then .fragment else .document) st.env s with
+         | .ok p => some ("ok " ++ encStr s ++ " " ++ showTree p.tree)
+         | _ => some ("ok " ++ encStr s ++ " rejected"))
+      | .err e => some (showError st.env e)
+      | .panic => some "panic"
   | _ => none
 
 end XotModel.Driver
